@@ -70,7 +70,7 @@ def to_stream(
     """
     if seed_or_generator is None:
         stream = np.random
-    elif type(seed_or_generator) == int:
+    elif isinstance(seed_or_generator, (int, np.integer)):
         stream = np.random.Generator(np.random.MT19937(seed_or_generator))
     else:
         stream = seed_or_generator
